@@ -156,7 +156,9 @@ def handle (st : Driver.St) (op : String) (args : List String) (_impl : Option S
   match op, args with
   | "sched", [b, wsS, stepsS] =>
     let backend? : Option Backend :=
-      if b == "cdb" then some .cdb else if b == "rdb" then some .rdb else none
+      -- `cdbc` / `rdbc`: response cache on (sequential schedules); the cache is invisible (C12), so
+      -- the model is the same
+      if b == "cdb" || b == "cdbc" then some .cdb else if b == "rdb" || b == "rdbc" then some .rdb else none
     match backend? with
     | none => some (st, { model := "bad-op" })
     | some backend =>
